@@ -324,3 +324,4 @@ def run(facts, rep, ctx):
     _run_before_round5(facts, rep, ctx)
     from . import round5
     round5.zr1(facts, rep)
+    round5.cs1(facts, rep)
